@@ -1241,6 +1241,14 @@ func (tb *TB) IntToFloat(a *Term, signed bool, w int, math_ bool) *Term {
 	if tb.liftable1(a) {
 		return tb.Ite(a.Args[0], tb.IntToFloat(a.Args[1], signed, w, math_), tb.IntToFloat(a.Args[2], signed, w, math_))
 	}
+	// canonical form: every integer narrower than 64 bits is first widened to a signed 64-bit value, so that
+	// float64(uint8(b)), float64(int64(b)) and float64(int(b)) are the same term
+	if a.S.W < 64 {
+		if signed {
+			return tb.IntToFloat(tb.SExt(a, 64), true, w, math_)
+		}
+		return tb.IntToFloat(tb.ZExt(a, 64), true, w, math_)
+	}
 	op := "sbv_to_fp"
 	if !signed {
 		op = "ubv_to_fp"
